@@ -754,8 +754,10 @@ where
                             outcome = Err(error);
                             running
                         }
-                        Err(error) => {
-                            // Stop the session if error cannot be handled
+                        Err(_unhandled) => {
+                            // Stop the session if error cannot be handled. What the
+                            // session handle reports is the error that ended the
+                            // session, not the failure to tell the peer about it
                             outcome = Err(error);
                             Running::Stop
                         }
